@@ -16,7 +16,7 @@ RULE = ("every library shorthand with >= 3 notes x every root (letter + 0..2 sha
         "Non-trivial: rotation k >= 1, or >= 5 notes, or an input whose answer list is non-empty."
         ' Also: the no_inversions forms are asked before the plain question; all seven notes of every key stacked in thirds from every degree in every rotation (and their six-note prefixes) for the never-raises / same-length clauses; invert / first_ / second_ / third_inversion give the same rotations as plain list slicing.')
 ASSUMPTIONS = [
-    "the chord to recognise is built with from_shorthand itself (round-trip oracle); long names are compared with an "
+    "the chord to recognise is built with from_shorthand itself (round-trip oracle); long names are formed with "
     "the wording of the library meaning table (an own pinned copy is the fall-back) and own ordinals",
     "position correspondence of the two forms: a polychord entry is a polychord entry in both forms; any other entry "
     "i has long form root + meaning(suffix of shorthand entry i) + an inversion ordinal",
